@@ -64,6 +64,13 @@ def gen_impexp_tables(outdir):
               "idpyoidc.server.claims.oauth2", "idpyoidc.client.oidc", "idpyoidc.client.oauth2",
               "idpyoidc.client.oauth2.stand_alone_client", "idpyoidc.client.rp_handler"):
         importlib.import_module(m)
+    # every service module of the relying party (their instances are exported through Entity / DLDict and are visited by
+    # the attribute census of C13)
+    import pkgutil
+    for pkg in ("idpyoidc.client.oidc", "idpyoidc.client.oauth2"):
+        for info in pkgutil.iter_modules(importlib.import_module(pkg).__path__):
+            if not info.ispkg:
+                importlib.import_module(pkg + "." + info.name)
     from idpyoidc.impexp import ImpExp
     from idpyoidc.message import Message
 
@@ -538,6 +545,62 @@ def gen_schema(outdir):
              "Definition set_rule_calls : list (pystr * pystr * list pystr) := %s.\n"
              % ("[\n%s\n]" % ";\n".join(set_calls) if set_calls else "nil"))
     emit(outdir, "Schema.v", text)
+
+    # ---- C11: the DECLARED tables -> Gen/SchemaDecl.v.  `all_classes` above is read off the class objects AFTER every
+    #      module has been imported: a class body (or module-level code) that aliases and changes another class's
+    #      c_param / c_default / c_allowed_values at import time is already folded into it, and the table is
+    #      self-consistent but no longer what the classes declare.  harness/schema_decl.py evaluates the class bodies
+    #      from the SOURCE TEXT by value (no shared objects, independent of import order); Props/C11.v states that the
+    #      two tables are equal (C11_declared_is_runtime) and that nothing was refused (C11_declared_all_evaluated).
+    #      Private failure channel: never the engine's `BROKEN-TRANSLATION:` prefix; if this part cannot run its
+    #      file is removed, so that only the build of Props/C11.v breaks.
+    try:
+        sys.path.insert(0, os.path.dirname(os.path.abspath(__file__)))
+        import schema_decl
+        decl, _owners, refused = schema_decl.declared(classes)
+        drows = []
+        for name, c in classes:
+            if name not in decl:
+                continue
+            d = decl[name]
+            ps = []
+            for pname, ent in d["c_param"].items():
+                where = "declared %s.c_param[%r]" % (name, pname)
+                if not (isinstance(ent, tuple) and len(ent) == 5 and isinstance(ent[1], bool) and isinstance(ent[4], bool)):
+                    raise Untranslatable("%s: entry %r" % (where, ent))
+                typ, req, ser, deser, null = ent
+                ps.append("mkP %s %s %s %s %s %s" % (
+                    coq_str(pname), ptype(typ), "true" if req else "false",
+                    fn_id(ser, SER, "SNone", "SOpaque", where), fn_id(deser, DESER, "DNone", "DOpaque", where),
+                    "true" if null else "false"))
+            al = []
+            for k, vs in d["c_allowed_values"].items():
+                if not isinstance(vs, (list, tuple)):
+                    raise Untranslatable("declared %s.c_allowed_values[%r] = %r" % (name, k, vs))
+                al.append("(%s, [%s])" % (coq_str(k), "; ".join(
+                    pyval(v, "declared %s.c_allowed_values[%r]" % (name, k)) for v in vs)))
+            df = ["(%s, %s)" % (coq_str(k), pyval(v, "declared %s.c_default[%r]" % (name, k)))
+                  for k, v in d["c_default"].items()]
+            drows.append("  (%s,\n   ([%s],\n    [%s],\n    [%s]))" % (
+                coq_str(name), ";\n     ".join(ps), ";\n     ".join(al), "; ".join(df)))
+        dtext = ("(* GENERATED by harness/gen_tables.py (gen_schema, declared part; evaluator harness/schema_decl.py) from the\n"
+                 "   SOURCE TEXT of the class bodies of the current /repo/src - do not edit.\n"
+                 "   %d classes evaluated, %d refused. *)\n"
+                 "From Coq Require Import String.\nFrom Verif Require Import Lib.Base Lib.MsgSchema.\n\n"
+                 "(* class -> (c_param, c_allowed_values, c_default) as the class bodies declare them *)\n"
+                 "Definition declared_schemas : list (pystr * (list param * list (pystr * list pyval) * list (pystr * pyval))) := [\n%s\n].\n\n"
+                 "(* classes whose body has a statement about a schema table that the evaluator does not cover: (class, reason) *)\n"
+                 "Definition decl_refused : list (pystr * pystr) := %s.\n"
+                 % (len(drows), len(refused), ";\n".join(drows),
+                    "[\n%s\n]" % ";\n".join("  (%s, %s)" % (coq_str(n), coq_str(r)) for n, r in refused) if refused else "nil"))
+        emit(outdir, "SchemaDecl.v", dtext)
+    except Exception as e:   # noqa
+        print("C11-BROKEN-DECLARATION: %s: %s" % (type(e).__name__, str(e).replace("\n", " | ")[:600]))
+        for ext in (".v", ".vo", ".vos", ".vok", ".glob"):      # no stale table, source or compiled, survives
+            try:
+                os.remove(os.path.join(outdir, "SchemaDecl" + ext))
+            except OSError:
+                pass
 
 
 # --------------------------------------------------------------------------------------------------
